@@ -8,7 +8,7 @@ use crate::zalsa_local::verif::{empty_derived, revs};
 use crate::zalsa_local::{OriginAndExtra, QueryEdge};
 use crate::{Durability, Revision};
 
-//@off(pending-measurement) id=K-DIFF-1 kind=B bound=2-stale-structs props=C06,C07 timeout=900 fn=MemoHeader::diff_outputs,report_stale_output,DatabaseKeyIndex::remove_stale_output
+//@off(cbmc-does-not-finish) id=K-DIFF-1 kind=B bound=2-stale-structs props=C06,C07 timeout=900 fn=MemoHeader::diff_outputs,report_stale_output,DatabaseKeyIndex::remove_stale_output
 //@ pre: old memo with no output edges (derived or derived-untracked); the new execution reports 0, 1 or 2 stale tracked structs (symbolic count, oracle ingredients)
 //@ post: every stale struct is handed to remove_stale_output exactly once, in order, with the executing query as executor, addressed to its own ingredient; nothing else is removed
 #[cfg_attr(kani, kani::proof)]
